@@ -13,3 +13,4 @@ import Gmsm.Props.C01
 import Gmsm.Props.C02
 import Gmsm.Props.C13
 import Gmsm.Props.C14
+import Gmsm.Props.C09
